@@ -260,15 +260,22 @@ def ghz(n, kind, rng):
     return "\n".join(lines)
 
 
+_CALLS = [0]
+
+
 def check_shots(ctx, text, label, nshots, finding_key=None):
     try:
         _check_shots(ctx, text, label, nshots, finding_key)
     finally:
-        # every compiled graph is its own XLA executable: drop them, or a long run exhausts the process's memory maps
-        import gc
-        import jax
-        jax.clear_caches()
-        gc.collect()
+        # every compiled graph is its own XLA executable: drop them now and then, or a long run exhausts the process's memory maps
+        # (dropping them after every circuit would also throw away jax's own jitted helpers and triple the running time)
+        _CALLS[0] += 1
+        big = text.count("\n") > 150
+        if big or _CALLS[0] % 8 == 0:
+            import gc
+            import jax
+            jax.clear_caches()
+            gc.collect()
 
 
 def _check_shots(ctx, text, label, nshots, finding_key=None):
@@ -369,7 +376,7 @@ def run(ctx: Ctx) -> int:
     for n, kinds in ([(2, ["zz"]), (33, ["zz"]), (34, ["zz", "chain"]), (48, ["zz"]), (120, ["xx"])] if quick else
                      [(k, ["zz", "xx", "chain"]) for k in [1, 2, 5, 31, 32, 33, 34, 35, 48, 64, 90, 120, 129, 140, 200, 260]]):
         for kind in kinds:
-            if time.time() > t_end:
+            if time.time() > t_end - (30 if ctx.quick else 800):      # in the thorough tier the GHZ family gets about half of the budget
                 break
             # a component with 128 or more fair random outputs underflows float32 (recorded finding, identified per circuit)
             fk = f"float32-underflow:ghz-xx-{n}" if (kind == "xx" and n >= 128) else None
